@@ -64,6 +64,7 @@ type Options struct {
 	MempoolCfg  *cfg.MempoolConfig
 	RichBalance bool // balances large enough for confidential fees
 	AllRich     bool // every account is rich
+	Candidates  bool // elected validator candidates in the genesis (so that evidence in blocks has somebody to score)
 	RealCache   bool // keep the mempool's tx cache (4 heaps of 100k pre-sized slots and 4 never-ending goroutines per node)
 }
 
@@ -88,6 +89,7 @@ type Sim struct {
 
 	InitialNative *big.Int
 	InitialToken  map[common.Address]*big.Int
+	CandKeys      []crypto.PubKey             // elected candidates of the genesis (Options.Candidates), then one stranger
 	Issued        map[common.Address]*big.Int // by design: ISSUE
 	Destroyed     map[common.Address]*big.Int // by design: self-destruct to self (native + tokens)
 	Log           []string
@@ -184,6 +186,17 @@ func New(t *rapid.T, o Options) *Sim {
 	}
 	for i := 0; i < nw; i++ {
 		s.Wallets = append(s.Wallets, world.NewWallet(uint64(500+i), 2))
+	}
+	if o.Candidates {
+		nc := rapid.IntRange(1, 3).Draw(t, "ncandidates")
+		for i := 0; i < nc; i++ {
+			pub := crypto.GenPrivKeyEd25519FromSecret([]byte(fmt.Sprintf("candidate-%d", i))).PubKey()
+			s.CandKeys = append(s.CandKeys, pub)
+			spec.Candidates = append(spec.Candidates, world.CandidateSeed{Pub: pub, CoinBase: addrOf(fmt.Sprintf("candidate-coinbase-%d", i)), VotingPower: 1,
+				Score: int64(rapid.IntRange(0, 5).Draw(t, "candscore")), ProduceInfo: rapid.IntRange(-3, 3).Draw(t, "candproduce")})
+		}
+		s.CandKeys = append(s.CandKeys, crypto.GenPrivKeyEd25519FromSecret([]byte("not-a-candidate")).PubKey())
+		s.Universe[cfg.ContractCandidatesAddr] = struct{}{}
 	}
 	for _, a := range []common.Address{common.EmptyAddress, cfg.ContractFoundationAddr, addrOf("sink-1"), addrOf("sink-2")} {
 		s.Universe[a] = struct{}{}
